@@ -102,6 +102,10 @@ def ensure_facts(cfg, log=sys.stderr):
         stamp = os.path.join(out_dir, "OK")
         wanted = ["average", "avg_harness"]
         if os.path.exists(stamp) and all(os.path.exists(os.path.join(out_dir, w + ".json")) for w in wanted):
+            try:
+                os.utime(os.path.dirname(out_dir), None)
+            except OSError:
+                pass
             return {w: os.path.join(out_dir, w + ".json") for w in wanted}, key
         if os.path.isdir(out_dir):
             shutil.rmtree(out_dir)
@@ -159,7 +163,7 @@ def ensure_facts(cfg, log=sys.stderr):
         # prune old fact dirs (keep the 6 most recent)
         fdir = os.path.join(CACHE, "facts")
         ds = sorted((os.path.getmtime(os.path.join(fdir, d)), d) for d in os.listdir(fdir))
-        for _, d in ds[:-6]:
+        for _, d in ds[:-12]:
             shutil.rmtree(os.path.join(fdir, d), ignore_errors=True)
         return {w: os.path.join(out_dir, w + ".json") for w in wanted}, key
     finally:
